@@ -229,33 +229,45 @@ func cmdFaults(args []string) int {
 					if !exec(op, "", "fetch-err") {
 						return 2
 					}
-					// undecodable record for the key at this position
-					op = mkOp(sh.kind, sh.n)
-					a := inst.resolveInfo(op.Addrs[pos])
-					action := byte(2)
-					if sh.kind == KPropose {
-						action = 3
-					}
-					if err := inst.Rules.VerifPutRaw(ctx, recKey(a.Key, action), []byte{1, 2, 3}); err != nil {
-						fmt.Fprintln(os.Stderr, err)
-						return 2
-					}
-					op.Fault.Fetch = []int{pos}
-					// the batch path stops at the first failing fetch; later positions are not fetched
-					ok := exec(op, "corrupt", "undecodable-record")
-					if ok && lastRec != nil && pos < len(lastRec.Obs) && lastRec.Obs[pos].SigLen > 0 {
-						monFail = append(monFail, fmt.Sprintf("a signature was released at position %d although the protection record of that key cannot be decoded :: %s", pos, describeStep(lastRec)))
-					}
-					// repair the record with a low watermark so that later duties advance
-					var val []byte
-					if action == 2 {
-						val = encodeAtt(0, 1)
-					} else {
-						val = encodeProp(1)
-					}
-					_ = inst.Rules.VerifPutRaw(ctx, recKey(a.Key, action), val)
-					if !ok {
-						return 2
+					for shapeK := 0; shapeK < 7; shapeK++ {
+						// undecodable record for the key at this position
+						op = mkOp(sh.kind, sh.n)
+						a := inst.resolveInfo(op.Addrs[pos])
+						action := byte(2)
+						if sh.kind == KPropose {
+							action = 3
+						}
+						// a record nothing can be decoded from: cut short, over-long, empty, or no format at all
+						full := 9
+						if action == 2 {
+							full = 17
+						}
+						damaged := [][]byte{{1, 2, 3}, {}, {1}, make([]byte, full-1), make([]byte, full+1), {0xff, 0xff, 0xff}, {0, 0, 0}}[shapeK]
+						if len(damaged) >= full-1 {
+							damaged[0] = 1
+						}
+						run.stats[fmt.Sprintf("corrupt.len%d", len(damaged))]++
+						if err := inst.Rules.VerifPutRaw(ctx, recKey(a.Key, action), damaged); err != nil {
+							fmt.Fprintln(os.Stderr, err)
+							return 2
+						}
+						op.Fault.Fetch = []int{pos}
+						// the batch path stops at the first failing fetch; later positions are not fetched
+						ok := exec(op, "corrupt", "undecodable-record")
+						if ok && lastRec != nil && pos < len(lastRec.Obs) && lastRec.Obs[pos].SigLen > 0 {
+							monFail = append(monFail, fmt.Sprintf("a signature was released at position %d although the protection record of that key cannot be decoded :: %s", pos, describeStep(lastRec)))
+						}
+						// repair the record with a low watermark so that later duties advance
+						var val []byte
+						if action == 2 {
+							val = encodeAtt(0, 1)
+						} else {
+							val = encodeProp(1)
+						}
+						_ = inst.Rules.VerifPutRaw(ctx, recKey(a.Key, action), val)
+						if !ok {
+							return 2
+						}
 					}
 				}
 				op := mkOp(sh.kind, sh.n)
@@ -304,6 +316,47 @@ func cmdFaults(args []string) int {
 				return 2
 			}
 		}
+	}
+	// a store that cannot commit: badger refuses writes (as it does around a drop or a close) while reads still
+	// work.  Whatever is signed meanwhile must have its watermark on record when the response is out.
+	{
+		stop, done := make(chan struct{}), make(chan struct{})
+		go func() { inst.Rules.VerifBlockWrites(stop); close(done) }()
+		nBlocked := 120
+		for k := 0; k < nBlocked; k++ {
+			epoch++
+			a := accts[k%len(accts)]
+			op := &Op{Kind: KPropose, Client: "client1", IP: "10.0.0.1", Addrs: []Addr{{Name: a.Path()}},
+				Props: []PropData{{Dom: mkDomain(domProposer, 1), Slot: epoch, Pidx: 1, Parent: fill32(0), State: fill32(1), Body: fill32(1)}}}
+			if k%2 == 1 {
+				op = &Op{Kind: KAttest, Client: "client1", IP: "10.0.0.1", Addrs: []Addr{{Name: a.Path()}},
+					Atts: []AttData{{Dom: mkDomain(domAttester, 1), BBR: fill32(1), Src: &Checkpoint{epoch - 1, fill32(0)}, Tgt: &Checkpoint{epoch, fill32(1)}}}}
+			}
+			obs, err := inst.safeExec(ctx, op)
+			if err != nil || len(obs) != 1 {
+				monFail = append(monFail, fmt.Sprintf("request while the store refuses writes: %v :: %s", err, op))
+				continue
+			}
+			post, err := inst.ReadStore(ctx)
+			if err != nil {
+				continue
+			}
+			if obs[0].SigLen > 0 {
+				run.stats["blocked-writes.signed"]++
+				recorded := post.Prop[a.ID] >= int64(epoch)
+				if op.Kind == KAttest {
+					recorded = post.Att[a.ID].Tgt >= int64(epoch)
+				}
+				if !recorded {
+					monFail = append(monFail, fmt.Sprintf("a signature was released although the watermark was not written (the store refused the commit; record of key#%d afterwards: attestation %v, proposal %d) :: %s => %s",
+						a.ID, post.Att[a.ID], post.Prop[a.ID], op, obs[0].State))
+				}
+			} else {
+				run.stats["blocked-writes.refused"]++
+			}
+		}
+		close(stop)
+		<-done
 	}
 	// handler level: the signature is copied only in the SUCCEEDED branch
 	hf, hn := handlerBiconditional(ctx, inst, fx, rng, &epoch)
